@@ -115,7 +115,47 @@ func flavourSelection(r *hx.Run) {
 		if c.l.Len() != 0 || c.l.Front() != nil || c.l.Back() != nil || len(c.l.Values()) != 0 {
 			r.Fail("flavour-selection", c.name+": a fresh list is not empty", map[string]string{"part": "constructor", "call": c.name, "got": "non-empty"})
 		}
+		// the flavours differ in behaviour, whatever the type is called: while a Range callback is parked, a PushBack
+		// on the thread-safe list has to wait, on the lock-free list it goes through
+		ts := strings.Contains(c.want, "threadSafe")
+		if got := writerWaitsForReader(c.l, ts); got != ts {
+			r.Fail("flavour-selection", fmt.Sprintf("%s: a PushBack made while a Range callback is parked waits=%v, want %v", c.name, got, ts),
+				map[string]string{"part": "constructor", "call": c.name, "got": fmt.Sprintf("waits=%v", got)})
+		}
 	}
+}
+
+// writerWaitsForReader: a Range callback is parked on the one element of l, a PushBack is started. Thread-safe
+// expected: it must not have returned while the reader is parked (checked after a short pause: a writer that got
+// through is through for good, so a slow machine cannot make this fail). Lock-free expected: it returns (generous
+// bound).
+func writerWaitsForReader(l ds.List[int], expectWait bool) (waits bool) {
+	l.PushBack(1)
+	parked, release, done := make(chan struct{}), make(chan struct{}), make(chan struct{})
+	go l.Range(func(int) {
+		select {
+		case <-parked:
+		default:
+			close(parked)
+			<-release
+		}
+	})
+	<-parked
+	go func() { defer close(done); _ = hx.Safely(func() { l.PushBack(2) }) }()
+	bound := 20 * time.Second
+	if expectWait {
+		bound = 20 * time.Millisecond
+	}
+	select {
+	case <-done:
+		waits = false
+	case <-time.After(bound):
+		waits = true
+	}
+	close(release)
+	<-done
+
+	return waits
 }
 
 func hel(e any) ds.ListElement[int] {
